@@ -167,20 +167,24 @@ class MustWrite:
     def mw(self, fn, param):
         return self._mw_roots(fn, [param], (fn.id, param))
 
-    def _mw_roots(self, fn, roots, key):
+    def mw_when(self, fn, param, ret_val):
+        """must-write restricted to the paths on which the bool function returns `ret_val`"""
+        return self._mw_roots(fn, [param], (fn.id, param, ret_val), ret_val)
+
+    def _mw_roots(self, fn, roots, key, ret_val=None):
         if key in self.memo:
             return self.memo[key]
         if key in self.busy:
             return (None, ["recursion through %s" % fn.name])
         self.busy.add(key)
         try:
-            res = self._compute(fn, roots)
+            res = self._compute(fn, roots, ret_val)
         finally:
             self.busy.discard(key)
         self.memo[key] = res
         return res
 
-    def _compute(self, fn, roots):
+    def _compute(self, fn, roots, ret_val=None):
         prog = self.prog
         if self.rep is not None:
             self.rep.touch(fn)
@@ -261,6 +265,38 @@ class MustWrite:
         for b in write_blocks:
             for s_ in fn.succ[b]:
                 blocked_edges.add((b, s_))
+        if ret_val is not None:
+            # only the paths on which the function returns ret_val: edges that decide on the
+            # very value that is returned, the other way, are excluded
+            rds = [d for d in fn.defs().get(0, []) if d[3]]
+            if len(rds) == 1:
+                R = sym.rvalue(rds[0][2], rds[0][0], (rds[0][0], rds[0][1]))
+                for (p_, s_, cond, v_) in sym.edge_facts():
+                    if cond == R and isinstance(v_, (bool, int)) and bool(v_) != ret_val:
+                        blocked_edges.add((p_, s_))
+        # a callee that writes exactly when it returns true (or false): the edges that are taken
+        # only after it returned that value count as written
+        for b, (c_, why_) in list(failed_callee.items()):
+            tg_ = prog.call_targets(c_)
+            if len(tg_) != 1 or (tg_[0].d.get("output") or "") != "bool":
+                continue
+            pos_ = [i for i in al.arg_positions(c_)]
+            lis = [i + 1 for i in pos_ if i + 1 <= tg_[0].arg_count and
+                   ((tg_[0].local_ty(i + 1) or "").startswith("&mut") or "ImageViewMut" in (tg_[0].local_ty(i + 1) or ""))]
+            if not lis:
+                continue
+            when = {}
+            for rv_ in (True, False):
+                vs_ = [self.mw_when(tg_[0], li_, rv_) for li_ in lis]
+                when[rv_] = all(v_[0] is True for v_ in vs_)
+            if not (when[True] or when[False]):
+                continue
+            for (p_, s_, cond, v_) in sym.edge_facts():
+                if fn.pred[s_] != [p_]:
+                    continue
+                for (fc, fv) in sym.facts_at(s_):
+                    if fc[0] == "callat" and fc[1] == b and isinstance(fv, (bool, int)) and when.get(bool(fv)):
+                        blocked_edges.add((p_, s_))
         err_blocks = error_return_blocks(fn)
         rets = fn.returns()
         path = find_path(fn, 0, rets, blocked=err_blocks, blocked_edges=blocked_edges)
